@@ -50,6 +50,9 @@ def rmat(rng, kind):
     if kind == 6:
         return {"eps": e(), "mu": [2.0, 0.25, 0.0, 0.25, 3.0, 0.0, 0.0, 0.0, 1.5], "sigma_e": [1.0, 0.5, 0.0, 0.5, 2.0, 0.0, 0.0, 0.0, 3.0],
                 "sigma_m": [s(), s(), s()]}
+    if kind == 8:   # full tensor that is NOT symmetric (an inverse-transpose slip is invisible on symmetric tensors)
+        a, b, c = e() + 1, e() + 1, e() + 1
+        return {"eps": [a, 0.5, 0.125, 0.25, b, 0.25, 0.0, 0.375, c], "mu": [2.0, 0.25, 0.0, 0.5, 3.0, 0.125, 0.0, 0.0, 1.5]}
     if kind == 7:   # isotropic within math.isclose but not exactly (only component [0] is used by the isotropic tier)
         x = e()
         return {"eps": [x, x * (1 + 2 ** -40), x]}
@@ -73,7 +76,7 @@ def rdict(rng, kinds):
 def gen_scene(rng, idx, nonuni=False):
     shape = SHAPES[idx % len(SHAPES)]
     profile = idx % 6
-    kinds = {0: [0], 1: [0, 1, 7], 2: [0, 2, 5], 3: [0, 1, 3], 4: [0, 1, 2, 3, 4], 5: [0, 1, 2, 3, 4, 5, 6, 7]}[profile]
+    kinds = {0: [0], 1: [0, 1, 7], 2: [0, 2, 5], 3: [0, 1, 3], 4: [0, 1, 2, 3, 4, 8], 5: [0, 1, 2, 3, 4, 5, 6, 7, 8]}[profile]
     case = {"shape": list(shape), "spacing": SP, "vol_pos": rng.randrange(0, 5), "objs": []}
     if rng.random() < 0.5:
         case["vol_mat"] = rmat(rng, rng.choice([k for k in kinds if k in (0, 1, 2, 7)] or [0]))
